@@ -70,7 +70,15 @@ func (eng *Engine) writeReplay(root, prop string, v *violation, frs []*FuncResul
 		return
 	}
 	rec["model"] = or.Model
-	test, why := eng.genReplayTest(fr, or)
+	test, why := func() (t, w string) {
+		// a model the generator cannot turn into a test is "no failing input", never a crash of the check
+		defer func() {
+			if r := recover(); r != nil {
+				t, w = "", fmt.Sprintf("replay generator failed: %v", r)
+			}
+		}()
+		return eng.genReplayTest(fr, or)
+	}()
 	if test == "" && eng.runWitness(root, dir, v, rec) {
 		writeJSON(v.replay, rec)
 		return
@@ -90,6 +98,7 @@ func (eng *Engine) writeReplay(root, prop string, v *violation, frs []*FuncResul
 	testPath := filepath.Join(dir, "replay_test.go")
 	os.WriteFile(testPath, []byte(test), 0o644)
 	ov := map[string]map[string]string{"Replace": {filepath.Join(pkgDirAbs, "zz_verif_replay_test.go"): testPath}}
+	sqliteOverlay(eng.repo, ov["Replace"])
 	// the spec overlay (wrappers used by the test) must be visible too
 	for path, src := range eng.overlay {
 		if filepath.Dir(path) == pkgDirAbs && strings.HasSuffix(path, overlayFileName) {
@@ -131,6 +140,7 @@ func (eng *Engine) runWitness(root, dir string, v *violation, rec map[string]int
 		}
 		src := filepath.Join(root, f.WitnessTest)
 		ov := map[string]map[string]string{"Replace": {filepath.Join(eng.repo, f.WitnessPkg, "zz_verif_witness_test.go"): src}}
+		sqliteOverlay(eng.repo, ov["Replace"])
 		ovPath := filepath.Join(dir, "overlay.json")
 		writeJSON(ovPath, ov)
 		cmdline := fmt.Sprintf("cd %s && GOFLAGS=-mod=mod GOPROXY=off go test -overlay %s -vet=off -count=1 -timeout 120s -run TestShvcWitness ./%s/", eng.repo, ovPath, f.WitnessPkg)
@@ -148,6 +158,25 @@ func (eng *Engine) runWitness(root, dir string, v *violation, rec map[string]int
 		return true
 	}
 	return false
+}
+
+// sqliteOverlay: the pinned tree ships internal/sqlite/sqlite0/sqlite3.c as an empty file, so test binaries of the
+// packages that link SQLite (metadata) do not build. If an amalgamation is present on the machine it is supplied
+// through the overlay (the repository is not touched); otherwise such replays end as "did not build".
+func sqliteOverlay(repo string, repl map[string]string) {
+	target := filepath.Join(repo, "internal/sqlite/sqlite0/sqlite3.c")
+	if fi, err := os.Stat(target); err != nil || fi.Size() != 0 {
+		return
+	}
+	for _, dir := range []string{"/usr/lib/node_modules/better-sqlite3/deps/sqlite3", "/usr/local/lib/node_modules/better-sqlite3/deps/sqlite3"} {
+		if _, err := os.Stat(filepath.Join(dir, "sqlite3.c")); err == nil {
+			repl[target] = filepath.Join(dir, "sqlite3.c")
+			if _, err := os.Stat(filepath.Join(dir, "sqlite3.h")); err == nil {
+				repl[filepath.Join(repo, "internal/sqlite/sqlite0/sqlite3.h")] = filepath.Join(dir, "sqlite3.h")
+			}
+			return
+		}
+	}
 }
 
 func writeJSON(path string, v interface{}) {
@@ -461,6 +490,9 @@ func (eng *Engine) genReplayTest(fr *FuncResult, or *OblResult) (string, string)
 	for _, cl := range sp.Requires {
 		var as []string
 		for _, p := range cl.Params {
+			if p.Kind != pkParam || p.Index >= len(argNames) {
+				return "", "requires clause not executable in a test"
+			}
 			as = append(as, argNames[p.Index])
 		}
 		fmt.Fprintf(&sb, "\tif !%s(%s) {\n\t\tfmt.Println(\"SHVC-REPLAY: NOT-REPRODUCED (model violates requires %s)\")\n\t\treturn\n\t}\n", cl.WrapperName, strings.Join(as, ", "), cl.Label)
@@ -487,10 +519,13 @@ func (eng *Engine) genReplayTest(fr *FuncResult, or *OblResult) (string, string)
 		}
 		var as []string
 		for _, p := range cl.Params {
-			if p.Kind == pkParam {
+			switch {
+			case p.Kind == pkParam && p.Index < len(argNames):
 				as = append(as, argNames[p.Index])
-			} else {
+			case p.Kind == pkResult && p.Index < len(resNames):
 				as = append(as, resNames[p.Index])
+			default:
+				return "", "clause speaks about calls or locals inside the function: not observable from a test"
 			}
 		}
 		fmt.Fprintf(&sb, "\tif panicked {\n\t\tfmt.Println(\"SHVC-REPLAY: NOT-REPRODUCED (panic instead of return)\")\n\t\treturn\n\t}\n")
